@@ -241,17 +241,20 @@ func ruleTextUnmodified(c *eng.Ctx) {
 }
 
 // R17.4 [C17] (applied to every OOXML/ODF/EPUB reader)
+// R16.10 [C16]: the same clause for the word-processor readers
+func ruleFreshDecodeTargetDoc(c *eng.Ctx) {
+	freshDecodeTarget(c, "R16.10-FRESH-DECODE-TARGET", map[string]bool{"docx": true, "odt": true}, 10)
+}
+
 func ruleFreshDecodeTarget(c *eng.Ctx) {
-	const R = "R17.4-FRESH-DECODE-TARGET"
+	freshDecodeTarget(c, "R17.4-FRESH-DECODE-TARGET", map[string]bool{"xlsx": true, "docx": true, "odt": true, "pptx": true, "epubdoc": true}, 20)
+}
+
+func freshDecodeTarget(c *eng.Ctx, R string, pkgs map[string]bool, floor int) {
 	freshProg = c.P
-	c.Rule(R, "every xml.Unmarshal / Decoder.Decode / DecodeElement in the document readers decodes into storage allocated in the same function (a local, or a field that was just assigned a new value): encoding/xml appends to existing slices and keeps stale pointers, so a reused destination leaks the previous part's cells, merges or paragraphs into the next one", 20, 0)
+	c.Rule(R, "every xml.Unmarshal / Decoder.Decode / DecodeElement in the document readers decodes into storage allocated in the same function (a local, or a field that was just assigned a new value): encoding/xml appends to existing slices and keeps stale pointers, so a reused destination leaks the previous part's cells, merges or paragraphs into the next one", floor, 0)
 	for _, fn := range c.P.ModuleFuncs() {
-		if fn.Pkg == nil {
-			continue
-		}
-		switch eng.ShortPath(fn.Pkg.Pkg.Path()) {
-		case "xlsx", "docx", "odt", "pptx", "epubdoc":
-		default:
+		if fn.Pkg == nil || !pkgs[eng.ShortPath(fn.Pkg.Pkg.Path())] {
 			continue
 		}
 		n := 0
@@ -282,6 +285,13 @@ func freshStorage(fn *ssa.Function, v ssa.Value, at ssa.Instruction, depth int) 
 	}
 	switch x := v.(type) {
 	case *ssa.Alloc:
+		// inside a loop the destination must be allocated by the same iteration: a variable declared before the
+		// loop is decoded into again and again, and encoding/xml appends to what is already there
+		if at != nil && at.Block() != nil && x.Block() != nil && x.Parent() == at.Parent() && eng.InLoop(at.Block()) {
+			if !eng.ReachableBlocks(at.Block().Succs, nil)[x.Block()] && x.Block() != at.Block() {
+				return false, "the destination is allocated once, before the loop that decodes into it on every trip"
+			}
+		}
 		return true, ""
 	case *ssa.MakeInterface:
 		return freshStorage(fn, x.X, at, depth+1)
@@ -299,7 +309,7 @@ func freshStorage(fn *ssa.Function, v ssa.Value, at ssa.Instruction, depth int) 
 		}
 		// a helper of a decoder that receives the destination: fresh when every call site in the package passes
 		// fresh storage
-		if freshProg != nil && fn != nil && depth < 3 {
+		if freshProg != nil && fn != nil && depth == 0 { // only when the parameter itself is the destination, not a field of it
 			idx := -1
 			for i, q := range fn.Params {
 				if q == x {
